@@ -141,6 +141,11 @@ def o_checksum(src, value, fixed_layout, stale):
                 if fixed_layout:
                     return 'bit %d of byte %d flipped: %s instead of ChecksumError' % (k, i, type(e).__name__)
                 continue
+            # the flip may have changed the layout (a length prefix inside the covered region): then another region is covered and the
+            # digest is read from another place; what must hold is that the accepted digest is the hash of what is covered now
+            hf = H.namespace()['sum8'] if 'sum8' in src else H.namespace()['xor8']
+            if (q.body.offset1, q.body.offset2) != (o1, o2) and hf(q.body.data) == q.cks:
+                continue
             return 'bit %d of byte %d (covered region %d..%d, digest after) flipped and parse accepted the input' % (k, i, o1, o2)
     return None
 
